@@ -225,7 +225,10 @@ def run_history_c26(ch, tr: Trace) -> None:
             desc.append((s.name, n))
         if not both:
             tr.probe("mortar_one_side_only")
-        guarded("mortar replacement", lambda: mdg.replace_subdomains_and_interfaces(interface_map={intf: new}))
+        handed = dict(new)
+        guarded("mortar replacement", lambda: mdg.replace_subdomains_and_interfaces(interface_map={intf: handed}))
+        if ch.flag(1, 3):
+            handed.clear()  # the caller reuses the dictionary it passed
         state["mortar_nonmatching"] = True
         tr.probe("mortar_nonmatching")
         if state["primary_replaced"]:
@@ -370,7 +373,10 @@ def run_history_c26_3d(ch, tr: Trace) -> None:
                 g2, cs = other_2d_grid()
                 new[s_] = g2.copy()
                 desc.append((s_.name, cs))
-            guarded("mortar replacement", lambda: mdg.replace_subdomains_and_interfaces(interface_map={intf: new}))
+            handed = dict(new)
+        guarded("mortar replacement", lambda: mdg.replace_subdomains_and_interfaces(interface_map={intf: handed}))
+        if ch.flag(1, 3):
+            handed.clear()  # the caller reuses the dictionary it passed
             tr.probe("mortar_nonmatching_3d")
             tr.op("replace_mortar_3d", "ok", desc)
             state["n"] += 1
